@@ -158,6 +158,16 @@ def r1(chk, prog):
             ok = ok and all(cfg.position(c) not in seen for c in sorts)
             chk.check(ok, 'R1', f.name, 'sorting happens once, after all elements were added, if requested [%s]' % tag,
                       f.loc(sorts[0]))
+            # ... and whenever it is requested: with the sort flag set, no normal return is reachable without the
+            # sort (earlier content and the elements of earlier uses are part of the fold, so 'nothing was added by
+            # this use' is no reason to skip it)
+            from ..rules import implied_edges
+            off_edges = implied_edges(f, lambda c_: c_.get('k') == 'MemberExpr' and
+                                      c_.get('ref', {}).get('name') == 'mSortData', False)
+            missing = cfg.must_pass_through(lambda nn: nn in sorts, blocked_edges=off_edges)
+            chk.check(bool(off_edges) and not missing, 'R1', f.name, 'a requested sort is carried out on every normal '
+                      'path [%s]' % tag, f.loc(sorts[0]), 'a return is reachable with the sort flag set but without '
+                      'sorting (the sort depends on something else than the flag)')
         # (b') positional formatters are selected by the element's position in the DESTINATION (which is
         #      carried over between uses of the argument), never by the position inside the current value list
         for fm in fmts:
